@@ -31,34 +31,23 @@ fn dump(db: &Db) {
 fn main() {
     let dir = tempfile::tempdir().unwrap();
     let db = Db::open(dir.path().join("a")).unwrap();
-    w(&db, "MERGE (n:L {k: 1}) ON CREATE SET n.c = 1 ON MATCH SET n.m = 1");
-    w(&db, "MERGE (n:L {k: 1}) ON CREATE SET n.c = 1 ON MATCH SET n.m = 1");
-    w(&db, "MERGE (n:L {k: 1})");
-    w(&db, "CREATE (:L {k: 1})");
-    w(&db, "MERGE (n:L {k: 1}) ON MATCH SET n.m = 2, n.z = null");
-    w(&db, "UNWIND [1, 2, 2, null] AS x MERGE (n:M {k: x})");
-    w(&db, "UNWIND [2, 3, 3] AS x MERGE (n:M {k: x}) ON CREATE SET n.c = x ON MATCH SET n.m = x");
-    dump(&db);
-    w(&db, "MATCH (n:M) SET n = {a: 1, k: 2}");
-    w(&db, "MATCH (n:M) SET n += {a: 1, b: null, k: null}");
-    w(&db, "MATCH (n:M) SET n:M:X");
-    w(&db, "MATCH (n:M) REMOVE n:X:Nope");
-    w(&db, "MATCH (n:M) REMOVE n.a, n.zz");
-    w(&db, "MATCH (n:M) SET n.a = 1 REMOVE n.a");
-    wm(&db, "MATCH (n:M) SET n.a = 1 REMOVE n.a");
-    wm(&db, "MATCH (n:M) SET n.a = 1 SET n.b = n.a");
-    dump(&db);
-    w(&db, "MATCH (a:L), (b:M) CREATE (a)-[:T {w: 1}]->(b)");
-    w(&db, "MATCH (a:L), (b:M) WHERE id(a) = 0 CREATE (a)-[:T {w: 2}]->(b)");
-    dump(&db);
-    w(&db, "MATCH (a:L) WHERE id(a) = 0 DELETE a");
-    w(&db, "MATCH (a:L)-[r:T]->(b) WHERE id(a) = 0 DELETE r, a");
-    w(&db, "MATCH (a:L) WHERE id(a) = 1 DETACH DELETE a");
-    w(&db, "MATCH (a:L) WHERE id(a) = 2 WITH a MATCH (a)-[r]->() DETACH DELETE a, r");
-    dump(&db);
-    w(&db, "MATCH (a:M), (b:M) WHERE id(a) < id(b) MERGE (a)-[r:R {w: 1}]->(b) ON CREATE SET r.c = 1 ON MATCH SET r.m = 1");
-    w(&db, "MATCH (a:M), (b:M) WHERE id(a) < id(b) MERGE (a)-[r:R {w: 1}]->(b) ON CREATE SET r.c = 1 ON MATCH SET r.m = 1");
-    w(&db, "MATCH (a:M) DELETE a SET a.k = 5");
-    wm(&db, "MATCH (a:M) DETACH DELETE a SET a.k = 5");
-    dump(&db);
+    w(&db, "CREATE (:A {k: 1}), (:A {k: 2}), (:B {k: 3})");
+    w(&db, "MATCH (a:A {k: 1}), (b:B) MERGE (a)-[r:T {w: 1}]->(b) ON CREATE SET r.c = 1 ON MATCH SET r.m = 1");
+    w(&db, "MATCH (a:A {k: 1}), (b:B) MERGE (a)-[r:T {w: 1}]->(b) ON CREATE SET r.c = 1 ON MATCH SET r.m = 1");
+    w(&db, "MATCH (a:A {k: 1}), (b:B) MERGE (a)-[r:T {w: 2}]->(b) ON CREATE SET r.c = 2 ON MATCH SET r.m = 2");
+    w(&db, "MATCH (a:A {k: 1}), (b:B) MERGE (a)-[r:T]->(b) ON CREATE SET r.c = 3 ON MATCH SET r.m = 3");
+    w(&db, "MATCH (a:A {k: 1}), (b:B) MERGE (a)-[r:T {w: null}]->(b)");
+    w(&db, "MATCH (a:A {k: 1}), (b:B) MERGE (a)<-[r:T]-(b)");
+    w(&db, "MATCH (a:A {k: 1}), (b:B) MERGE (a)-[r:T]-(b)");
+    w(&db, "MATCH (a:A), (b:B) MERGE (a)-[r:U]->(b)");
+    q(&db, "MATCH (a)-[r]->(b) RETURN id(a), type(r), id(b), properties(r)");
+    w(&db, "MATCH (a)-[r:T]->(b) SET r.x = 5, r.w = null");
+    w(&db, "MATCH (a)-[r:T]->(b) SET r += {y: 1, x: null}");
+    w(&db, "MATCH (a)-[r:T]->(b) SET r = {z: 1}");
+    w(&db, "MATCH (a)-[r:T]->(b) REMOVE r.z, r.q");
+    q(&db, "MATCH (a)-[r]->(b) RETURN id(a), type(r), id(b), properties(r)");
+    w(&db, "MERGE (a:A {k: 1})-[r:V]->(b:C {k: 9})");
+    w(&db, "MERGE (a:A {k: 1})-[r:V]->(b:C {k: 9})");
+    q(&db, "MATCH (n) RETURN id(n), labels(n), properties(n)");
+    q(&db, "MATCH (a)-[r]->(b) RETURN id(a), type(r), id(b), properties(r)");
 }
